@@ -1,0 +1,29 @@
+//go:build verif
+
+package internal
+
+// VerifNode is one node of an [IntervalBST] as seen by the verification harness.
+type VerifNode struct {
+	Low, High, Max, Height int
+}
+
+// VerifShape returns the nodes of the tree in pre-order (node, left, right).
+func (t *IntervalBST[T]) VerifShape() []VerifNode {
+	res := []VerifNode{}
+	var walk func(n *node[T])
+	walk = func(n *node[T]) {
+		if n == nil {
+			return
+		}
+		res = append(res, VerifNode{
+			Low:    n.item.GetLow(),
+			High:   n.item.GetHigh(),
+			Max:    n.max,
+			Height: n.height,
+		})
+		walk(n.left)
+		walk(n.right)
+	}
+	walk(t.root)
+	return res
+}
